@@ -28,12 +28,23 @@ class AnalysisError(Exception):
 class DefectFound(AnalysisError):
     """The symbolic interpretation itself met a definite defect of the analysed code (not a limit of the analysis): a
     slot of an array allocated with np.empty is read although no store can have reached it.  Reported as a violation
-    (rule UNINIT-READ) by the property that was interpreting the function; a rule that catches AnalysisError to report
+    (rule INTERP-FAULT) by the property that was interpreting the function; a rule that catches AnalysisError to report
     its own instance still does so."""
+
+    rule_id = "INTERP-FAULT"
+    rule_desc = "the symbolic interpretation of a function meets no definite fault: no read of an np.empty slot before a store reaches it, no index outside a literal extent, no division by an identically zero value"
 
     def __init__(self, file, function, line, construct, message):
         AnalysisError.__init__(self, "%s::%s line %s: %s" % (file, function, line, message))
         self.file, self.function, self.line, self.construct, self.message = file, function, line, construct, message
+
+
+class TableWrong(DefectFound):
+    """A connectivity table was read completely and is not a table of the required kind (a slot written twice, a slot
+    of another element written, children missing): whatever rule needed the table reports it under TABLE-WELLFORMED."""
+
+    rule_id = "TABLE-WELLFORMED"
+    rule_desc = "refinement / barycentric connectivity tables assign every (child, corner) slot of the element being refined exactly once"
 
 
 def norm(text):
